@@ -42,7 +42,7 @@ INFO = dict(
               "(method resolution and defaults of the three image classes, pseudoinverse suppliers of the family, the "
               "arguments each operation hands to warp_to_shape) + the TRANSLATOR TIE: 41 functions of menpo/image/base.py, "
               "masked.py, boolean.py, interpolation.py and menpo/transform/compositions.py are translated from their SOURCE "
-              "TEXT into Lean on every run (harness/trans_c01.py, py2lean2 + py2lean2w + py2lean2c) and proved equal, for all "
+              "TEXT into Lean on every run (harness/trans_c01.py, py2lean2 + py2lean2w + py2lean2c + py2lean2n: helpers without a rule are inlined at their call sites, temporaries that are fragments of a vocabulary unit are substituted into their uses, guard loops and any(...) share one form, views such as result[0] are tracked as aliases - so behaviour-preserving refactorings keep the obligations) and proved equal, for all "
               "arguments, to the plans executed through the funnel - 23 of them a second time, from the same text, over a 3-D vocabulary (94 obligations re-checked by lake on every run) + "
               "model/implementation correspondence (query protocol: "
               "shapes, transforms, landmarks, sampled pixels and mask pixels, whole operation sequences) + an independent "
@@ -119,7 +119,7 @@ INFO = dict(
                "return_transform=True and diffing shape, transform, landmarks, sampled pixels and mask pixels against the "
                "Lean driver; the registration oracle decides the property on the real code.",
     level_note="Trusted: Lean kernel; axioms propext/Classical.choice/Quot.sound; harness incl. harness/extract_c01.py; driver "
-               "parser; the translator harness/py2lean2.py + py2lean2w.py + py2lean2c.py (self-tests tools/test_py2lean2*.py) "
+               "parser; the translator harness/py2lean2.py + py2lean2w.py + py2lean2c.py + py2lean2n.py (self-tests tools/test_py2lean2*.py) "
                "and the C01 vocabulary harness/trans_c01.py: numpy vector arithmetic, PointCloud.bounds / range, the "
                "constructors and compose_before of the transform classes (class ladder: C03), boolean-mask indexing, the "
                "LandmarkManager setter, `self.mask` being a BooleanImage are vocabulary (their meaning is Core/C01Src.lean's, "
